@@ -68,8 +68,9 @@ HasAuthorityPrefix(s) == AuthorityEnd(s) # 0
 JoinRel(base, t) == IF HasAuthorityPrefix(base) THEN JoinAbs(base, t) ELSE From(JoinAbs(HTTP7 \o base, t), 8)
 
 \* ---- one inference step (reference)
-\* leading blanks and control characters do not hide the protocol of the base a relative target is joined to
-LStripJunk(s) == LET k == SelectInSeq(s, LAMBDA c : ~(IsWs(c) \/ IsControl(c))) IN IF k = 0 THEN <<>> ELSE From(s, k)
+\* blanks and control characters do not hide the protocol of the base a relative target is joined to: the base is cleaned
+\* like canonicalize_url cleans its input (control characters removed, then stripped)
+LStripJunk(s) == Clean(s)
 ValueEnd(s, i) == LET a == i + Len(RKeys[KeyAt(s, i)]) + 1
                       e == MinOr0({j \in a..Len(s) : s[j] \in {38, 35}})
                   IN IF e = 0 THEN Len(s) ELSE e - 1
